@@ -6,7 +6,8 @@ INFO = {
             "float is symbolic with no assumption beyond its type (bit-stream blocks: values 0/1, the documented precondition). Oracle = CBMC's "
             "panic, arithmetic-overflow, bounds, division and unwinding checks on the real code; an error *value* is an allowed outcome.",
     "bounds": "AuDecode: data-offset field in {0,4,7,8,9,16,23,24,28,32}, all other header bytes symbolic, 0..4 data bytes, fed in pieces of 3/4/64; "
-              "HdlcDeframer: 24 arbitrary bits, min_size in {0,1,2}, checksum on/off, bit fixing on/off; Midpointer: bursts of 0..3 floats; "
+              "HdlcDeframer: 10 arbitrary bits through work() (thorough tier only; the no-panic claim for the automaton rests on C13's step harnesses, which start from "
+              "arbitrary states with up to 30 collected bits), min_size in {0,1,2}, checksum on/off, bit fixing on/off; Midpointer: bursts of 0..3 floats; "
               "VecToStream: packet lengths 0..cap+1; ZeroCrossing: 6 floats.",
     "outside": "SigMF metadata and archives (serde_json, tar), SymbolSync (float-dependent loop without derivable bound), wpcr::process_one (rustfft), "
                "Il2pDeframer (not built), TcpSource (C14), anything needing more than ~6 floats.",
@@ -31,10 +32,10 @@ def all_harnesses():
                 if fix and not ck:
                     continue
                 hs.append(Harness(f"c15_hdlc_min{mn}_{'ck' if ck else 'nock'}_{'fix' if fix else 'nofix'}",
-                                  f"crate::c15::hdlc(24, {mn}, 2, {str(ck).lower()}, {str(fix).lower()})", unwind=28, unit="HdlcDeframer::work",
-                                  shape={"bits": 24, "min_size": mn, "max_size": 2, "checksum": ck, "fix_bits": fix}, core=(not fix), timeout=2400))
+                                  f"crate::c15::hdlc(10, {mn}, 2, {str(ck).lower()}, {str(fix).lower()})", unwind=16, unit="HdlcDeframer::work",
+                                  shape={"bits": 10, "min_size": mn, "max_size": 2, "checksum": ck, "fix_bits": fix}, core=False, timeout=2400))
     for n in range(0, 4):
-        hs.append(Harness(f"c15_midpointer_{n}", f"crate::c15::midpointer({n})", unwind=8, unit="Midpointer::work", shape={"burst": n}, core=True, timeout=900))
+        hs.append(Harness(f"c15_midpointer_{n}", f"crate::c15::midpointer({n})", unwind=8, unit="Midpointer::work", shape={"burst": n}, core=(n <= 1), timeout=2400))
     for cap in (2, 3):
         for l1 in range(0, cap + 2):
             for l2 in (0, 1, cap + 1):
